@@ -96,6 +96,14 @@ def expected_value(v, cfg, spec):
     return v
 
 
+class _Miss:
+    def __repr__(self):
+        return "<the caller's default for a miss>"
+
+
+_MISS = _Miss()
+
+
 def check(case):
     from vlib.harness import virtual_time
     env = Env(pieces=case.get("pieces") or None)
@@ -207,14 +215,18 @@ def _check(case, env):
 
     if f_op in ("get", "gets", "gat", "gats", "getitem"):
         for i, (k, v) in enumerate(items):
+            # (every other fetch names a default for a miss: a hit returns what was stored, whatever that is - None, 0, b"" too)
             if f_op == "get":
-                r = call(c.get, k)
+                r = call(c.get, k) if i % 3 == 0 else call(c.get, k, default=_MISS) if i % 3 == 1 else call(c.get, k, _MISS)
             elif f_op == "getitem":
                 r = call(c.__getitem__, k)          # c[k]
             elif f_op == "gat":
-                r = call(c.gat, k, expire=100)
+                r = call(c.gat, k, expire=100) if i % 2 else call(c.gat, k, expire=100, default=_MISS)
             else:
-                r = call(getattr(c, f_op), k) if f_op == "gets" else call(c.gats, k, expire=100)
+                if i % 2:
+                    r = call(getattr(c, f_op), k) if f_op == "gets" else call(c.gats, k, expire=100)
+                else:
+                    r = call(c.gets, k, default=_MISS, cas_default=_MISS) if f_op == "gets" else call(c.gats, k, expire=100, default=_MISS, cas_default=_MISS)
                 if not (isinstance(r, tuple) and len(r) == 2 and isinstance(r[1], bytes) and r[1].isdigit()):
                     raise Violation(["cas-shape", f_op], "%s returned %r: %s" % (f_op, _short(r), desc))
                 r = r[0]
@@ -428,6 +440,20 @@ def grid_cases(tier, seed):
                         yield {"kind": kind, "cfg": {"key_prefix": b"t:" if (n + fi) % 2 else b"", "allow_unicode_keys": False, "encoding": "ascii"}, "serde": spec,
                                "items": [["k%d" % j, vd] for j, vd in enumerate(fam)], "absent": [], "store": store, "fetch": fetch, "coll": "list",
                                "pieces": None, "noreply": False}
+    # stored values that look like a miss - None, 0, False, empty things - fetched by calls that name a default: a hit is a hit
+    for spec in (("pickle", 0), ("pickle", 5), ("compressed", 10), ("compressed-default",), ("json",)):
+        falsy = [("none",), ("int", 0), ("bool", False), ("str", ""), ("list", []), ("dict", []), ("float", 0.0)]
+        if spec[0] != "json":
+            falsy += [("bytes", b""), ("tuple", [])]
+        for kind in ("client", "pooled", "hash", "hash-pooled"):
+            for store, fetch in (("set", "get"), ("set_many", "gat"), ("add", "gets"), ("set", "gats"), ("set", "getitem"), ("set_many", "get_many")):
+                if fetch == "getitem" and kind.startswith("hash"):
+                    continue
+                for rot in (0, 1, 2):
+                    fam = falsy[rot:] + falsy[:rot]       # (which fetches name a default goes by position)
+                    yield {"kind": kind, "cfg": {"key_prefix": b"f:" if rot else b"", "allow_unicode_keys": False, "encoding": "ascii"}, "serde": spec,
+                           "items": [["k%d" % j, vd] for j, vd in enumerate(fam)], "absent": ["nope"], "store": store, "fetch": fetch, "coll": "list",
+                           "pieces": None, "noreply": False}
     # bytes the application packed itself (a complete zlib / gzip / bz2 stream, a pickle - optionally with trailing bytes):
     # to the cache they are bytes and come back bit for bit, whatever serializer is configured
     for spec in (None, ("json",), ("pickle", 2), ("compressed", 10), ("compressed", 400), ("compressed-default",)):
